@@ -195,6 +195,17 @@ class Replayer:
                       via=cfg.get('via', 'none'))
         elif 'porder' in st['last'] and 'original_order' in flags and flags['original_order'] != [list(x) for x in st['last']['porder']]:
             self.fail(st, 'build', 'original-order', flags['original_order'], st['last']['porder'], via=cfg.get('via', 'none'))
+        if 'disorder_exception' in flags:
+            self.fail(st, 'build', 'enlarge-position-disorder', flags['disorder_exception'], 'position_disorder repeated with the unit cell')
+        elif 'disorder' in flags:
+            pd = getattr(lat, 'position_disorder', None)
+            want = [flags['disorder'][tuple(src)].tolist() for src in st['last']['dsrc']]
+            try:
+                gotpd = [np.asarray(pd)[tuple(l)].tolist() for l in st['order']]
+            except Exception as e:
+                gotpd = repr(e)
+            if gotpd != want:
+                self.fail(st, 'build', 'enlarge-position-disorder', gotpd, want)
         if lat.bc_MPS != cfg['bcmps']:
             return self.fail(st, 'build', 'bc_MPS', lat.bc_MPS, cfg['bcmps'])
         if lat.N_sites != len(exp):
